@@ -36,7 +36,12 @@ def plan(tier):
 
 def required(tier):
     return ["executions", "window_reached_executions", "forced_window_executions", "random_plan_executions",
-            "timeouts_with_results_in_flight", "multi_group_executions", "process_probe_events", "baseline_ok", "big_payload_cases"]
+            "timeouts_with_results_in_flight", "multi_group_executions", "process_probe_events", "baseline_ok", "big_payload_cases", "round_size_cases"]
+
+
+# the trace-specification probe is anchored on a source line of realign_gaf; if a refactoring removed the
+# line the probe is reported unattached and the output oracle alone decides
+OPTIONAL_IF = {"process_probe_events": "probe_unattached"}
 
 
 def setup(ctx):
@@ -104,6 +109,10 @@ def run_case(ctx, rng, index, casedir):
     sit = collections.Counter()
     viol = []
     nrec = rng.choice([1, 2, 3, 5, 7, rng.randint(8, 20), rng.randint(20, 40)])
+    sized = index % 8 == 3  # batch lengths at and around round sizes (exact multiples, one more, one less)
+    if sized:
+        nrec = rng.choice([64, 100, 128, 129, 192, 200, 256, 320])
+        sit["round_size_cases"] += 1
     big_payload = index % 10 == 7  # results larger than the 64 KiB pipe buffer (feeder threads block on the pipe)
     if big_payload:
         nrec = rng.randint(2, 6)
@@ -123,12 +132,12 @@ def run_case(ctx, rng, index, casedir):
     sigs = []
     nexec = 3 if ctx.tier == "quick" else rng.choice([3, 4, 5])
     for k in range(nexec):
-        batch = rng.choice([1, 2, 3, 5])
+        batch = rng.choice([1, 2, 3, 5]) if not sized or big_payload else rng.choice([16, 32, 64, 100, 128])
         cores = rng.choice([1, 2, 2, 3, 4, 6])
         ngroups = -(-(-(-nrec // batch)) // cores)
         scale = rng.choice([0.02, 0.05, 0.1])
         planned = {"cores": cores, "timeout_scale": scale, "max_groups": ngroups + 2}
-        if (k == 0 or rng.random() < 0.4) and not big_payload:
+        if (k == 0 or rng.random() < 0.4) and not big_payload and not sized:
             planned["forced"] = {"groups": "all", "hold": rng.choice([1, 1, 2, 3])}
             kind = "forced"
             sit["forced_window_executions"] += 1
